@@ -516,7 +516,10 @@ def r_resize(e, R):
         R.check(ok, "R-RESIZE", "submit and resize exclude each other through the same lock object", sm.short, "with self._submit_resize_lock",
                 "submit and _resize are not serialised by one lock: a task submitted during a resize can be lost with a departing worker",
                 e.loc(sm, sm.node))
-    body_nodes = [n for n in g.nodes if n.kind in ("stmt", "test", "with_enter") and n not in withs[:1]]
+    # (the binding of a local name to a literal constant touches no shared state: it may sit outside the lock)
+    body_nodes = [n for n in g.nodes if n.kind in ("stmt", "test", "with_enter") and n not in withs[:1]
+                  and not (n.kind == "stmt" and isinstance(n.ast, (ast.Assign, ast.AnnAssign)) and isinstance(n.ast.value, ast.Constant)
+                           and all(isinstance(t_, ast.Name) for t_ in (n.ast.targets if isinstance(n.ast, ast.Assign) else [n.ast.target])))]
     R.check(all(any(t == lock for t in held[n]) for n in body_nodes if n.ast is not None), "R-RESIZE", f"{f.short}: whole body under the resize lock",
             f.short, "with self._submit_resize_lock", "part of the resize runs outside the submit/resize lock", e.loc(f, f.node))
     # wait for jobs before posting sentinels
